@@ -48,6 +48,7 @@ type oOpaque struct {
 	bounds         *oStruct // what Bounds() returns
 	isError        bool     // an error value (implements the error interface)
 	isRuntimeError bool     // a run-time panic value (also implements runtime.Error)
+	methods        []string // methods a modelled object provides (calls go to the interpreter's stub)
 }
 type oFunc struct {
 	lit  *ast.FuncLit
@@ -686,7 +687,7 @@ func (fr *oFrame) assign(s *ast.AssignStmt) oCtl {
 				if ri, ok := fr.eval(s.Rhs[0]).(oInt); ok {
 					op := map[token.Token]token.Token{token.ADD_ASSIGN: token.ADD, token.SUB_ASSIGN: token.SUB, token.MUL_ASSIGN: token.MUL, token.QUO_ASSIGN: token.QUO, token.REM_ASSIGN: token.REM}[s.Tok]
 					if v, ok := intBinop(op, li, ri); ok {
-						return fr.store(s.Lhs[0], v, false)
+						return fr.store(s.Lhs[0], wrapInt(v, fr.info.TypeOf(s.Lhs[0])), false)
 					}
 				}
 			}
@@ -971,6 +972,21 @@ func (fr *oFrame) evalMulti(e ast.Expr) []oval {
 					return []oval{iv, oBool(true)}
 				}
 				return []oval{fr.it.zero(want), oBool(false)}
+			}
+		}
+		if iv.opaque != nil && len(iv.opaque.methods) > 0 {
+			if wi, ok := want.Underlying().(*types.Interface); ok {
+				all := true
+				for i := 0; i < wi.NumMethods(); i++ {
+					has := false
+					for _, mn := range iv.opaque.methods {
+						has = has || mn == wi.Method(i).Name()
+					}
+					all = all && has
+				}
+				if all {
+					return []oval{iv, oBool(true)}
+				}
 			}
 		}
 		if iv.opaque != nil || iv.dyn == nil {
@@ -1286,7 +1302,7 @@ func (fr *oFrame) eval(e ast.Expr) oval {
 			if li, ok := lv.(oInt); ok {
 				if ri, ok := fr.eval(x.Y).(oInt); ok {
 					if v, ok := intBinop(x.Op, li, ri); ok {
-						return v
+						return wrapInt(v, fr.info.TypeOf(x))
 					}
 				}
 			}
@@ -1397,6 +1413,9 @@ func (fr *oFrame) call(call *ast.CallExpr) []oval {
 		if sl, ok := v.(oSlice); ok {
 			sl.typ = tv.Type
 			return one(sl)
+		}
+		if _, ok := v.(oInt); ok && !isFloatT(tv.Type) {
+			v = wrapInt(v, tv.Type)
 		}
 		if i, ok := v.(oInt); ok && fr.it.symbolic && isFloatT(tv.Type) {
 			return one(oSym{polyConst(big.NewRat(int64(i), 1))})
@@ -1646,8 +1665,17 @@ func (fr *oFrame) call(call *ast.CallExpr) []oval {
 		// interface method call
 		if iv, ok := xv.(oIface); ok {
 			if iv.opaque != nil {
-				if f.Name() == "Bounds" && len(call.Args) == 0 {
+				if f.Name() == "Bounds" && len(call.Args) == 0 && iv.opaque.bounds != nil {
 					return one(oPtr{iv.opaque.bounds})
+				}
+				if fr.it.stub != nil && len(iv.opaque.methods) > 0 {
+					var args []oval
+					for _, a := range call.Args {
+						args = append(args, fr.eval(a))
+					}
+					if out, ok := fr.it.stub(f, iv, args); ok {
+						return out
+					}
 				}
 				return one(oTop{"call of " + f.Name() + " on opaque " + iv.opaque.name})
 			}
@@ -2319,4 +2347,33 @@ func embeddedRecv(recv oval, want types.Type) oval {
 		cur = next
 	}
 	return recv
+}
+
+// wrapInt reduces an integer result to the width and signedness of its static type (Go's
+// arithmetic on sized integers wraps around silently).
+func wrapInt(v oval, t types.Type) oval {
+	i, ok := v.(oInt)
+	if !ok || t == nil {
+		return v
+	}
+	b, ok := t.Underlying().(*types.Basic)
+	if !ok {
+		return v
+	}
+	n := int64(i)
+	switch b.Kind() {
+	case types.Uint8:
+		return oInt(int64(uint8(n)))
+	case types.Uint16:
+		return oInt(int64(uint16(n)))
+	case types.Uint32:
+		return oInt(int64(uint32(n)))
+	case types.Int8:
+		return oInt(int64(int8(n)))
+	case types.Int16:
+		return oInt(int64(int16(n)))
+	case types.Int32:
+		return oInt(int64(int32(n)))
+	}
+	return v
 }
